@@ -52,4 +52,14 @@ def judge_half_created(req, rr):
             return False, 'all-or-nothing: registered=%s attached=%s' % (o['registered'], o['attached'])
     return False, 'no observation (exit %s) %s' % (rr['exit'], rr['tail'][-300:])
 
-JUDGES = {'actor_script': judge_actor_script, 'half_created': judge_half_created, 'names': judge_names, 'push_attributes': judge_push_attributes, 'streaming_bad_modify': judge_streaming_bad_modify}
+def judge_delete_releases(req, rr):
+    for o in rr['obs']:
+        if o.get('scenario') == req['scenario']:
+            bad = [s for s in o['statuses'] if s.startswith('ok-') or s == 'closed-without-status']
+            if o['hangs'] > 0 or bad:
+                return True, 'after DeleteSubscription the waiting consumer was not released in %d of %d rounds (2 s limit); outcomes of the others: %s' % (o['hangs'], o['rounds'], o['statuses'])
+            return False, 'released in all %d rounds with %s' % (o['rounds'], o['statuses'])
+    return False, 'no observation (exit %s) %s' % (rr['exit'], rr['tail'][-300:])
+
+
+JUDGES = {'actor_script': judge_actor_script, 'delete_releases': judge_delete_releases, 'half_created': judge_half_created, 'names': judge_names, 'push_attributes': judge_push_attributes, 'streaming_bad_modify': judge_streaming_bad_modify}
